@@ -2,6 +2,7 @@ import Eliot.Model.File
 import Eliot.Proofs.FileCrash
 import Eliot.Proofs.FileDest
 import Eliot.Properties.C09
+import Eliot.Generated.FileDest
 /-! # C11 — a crash loses no acknowledged message and leaves a parseable log
 
 Model: the crash layer of `Eliot/Model/File.lean`.  A logging call is the micro-step sequence
@@ -16,6 +17,12 @@ allowed by the model), the lines being the ones C10 describes (assumed newline-f
 which is `EJ.C10.one_line_per_message`). -/
 namespace EJ.C11
 open EJ
+
+/-! The micro-step sequence `append line; …; spillAll; ack` is what `FileDestination.__call__` does only
+while its body is one `write(dumps + linebreak)` followed by one `flush()`: the shape regenerated from
+the current source (skeleton E2) must be that one, so a removed flush or a reordered write / flush
+breaks this check too. -/
+example : Generated.fileDestCall = EJ.stdShape := by decide
 
 /-- At any crash point, under any chunking, the disk holds the complete lines of a prefix of the
 emitted messages covering at least the acknowledged ones, followed by nothing or by a proper prefix
